@@ -335,7 +335,7 @@ let handle_c08 (x : Sexp.t) : string =
   match impl with
   | Sexp.List (Sexp.Atom "panic" :: loc :: _) ->
       (match sem0 with
-       | B2Ok _ -> Registry.result ~id ~status:"fail" ~key:("rejects-well-formed:panic:" ^ Sexp.atom loc) ~detail:"the reference interpreter accepts the text, parse_str panics" ()
+       | B2Ok _ -> Registry.result ~id ~status:"fail" ~key:("rejects-well-formed:panic:" ^ first_model_error dbg ctext) ~detail:("the reference interpreter accepts the text, parse_str panics at " ^ Sexp.atom loc) ()
        | B2Err _ -> Registry.result ~id ~status:"ok" ~key:("panic+" ^ semclass) ())
   | Sexp.List [Sexp.Atom "err"] ->
       (match sem0 with
